@@ -558,10 +558,13 @@ func jsonNorm(v interface{}) interface{} {
 
 func c06Features(r *engine.Run) {
 	ids := []interface{}{nil, "a", 7, 1.5, "", -3, true, []interface{}{1, "x"}}
-	props := []map[string]interface{}{nil, {}, {"k": []interface{}{1, map[string]interface{}{"x": nil}}}, {"name": "n", "n": 1e21, "neg": -0.5, "u": "é\"\\"}}
+	props := []map[string]interface{}{nil, {}, {"k": []interface{}{1, map[string]interface{}{"x": nil}}}, {"name": "n", "n": 1e21, "neg": -0.5, "u": "é\"\\"},
+		{"n": nil, "f": false, "z": 0.0, "s": "", "arr": []interface{}{}, "obj": map[string]interface{}{}}}
 	foreign := []map[string]interface{}{nil, {}, {"bbox": []interface{}{0, 0, 1, 1}}, {"a": 1, "b": "t", "nested": map[string]interface{}{"c": []interface{}{}}},
 		// names that differ from the reserved members only by letter case are ordinary foreign members
-		{"ID": "other"}, {"Id": 7.0, "PROPERTIES": map[string]interface{}{"x": 1.0}}, {"Type": "t", "Geometry": "g"}}
+		{"ID": "other"}, {"Id": 7.0, "PROPERTIES": map[string]interface{}{"x": 1.0}}, {"Type": "t", "Geometry": "g"},
+		// every JSON value class directly as a member value, the "absent-looking" ones included
+		{"n": nil}, {"n": nil, "after": 1.0}, {"f": false, "z": 0.0, "s": "", "arr": []interface{}{}, "obj": map[string]interface{}{}}}
 	geoms := []geom.Geometry{geom.NewPointXY(1, 2).AsGeometry(), {}, geom.NewLineStringXYZ(0, 0, 1, 1, 1, 2).AsGeometry(),
 		geom.NewGeometryCollection([]geom.Geometry{geom.NewEmptyPoint(geom.DimXYZ).AsGeometry(), geom.NewPointXYZ(1, 2, 3).AsGeometry()}).AsGeometry()}
 	var feats []geom.GeoJSONFeature
